@@ -10,7 +10,8 @@ PROPERTY_ID = "C09"
 LEVEL = "exploration"
 RULE = ("Stateful generation of request histories (length 2..25) for the real JSON session against an abstract state "
         "{idle, paused-at-error}: evaluations whose value embeds the request index, definitions, failing code "
-        "(error inside nested calls / a finite for body / a plain expression), parse errors, malformed JSON, valid "
+        "(error inside nested calls / a finite for body / a plain expression / a violated return type), also followed "
+        "at once by 2..4 resumes, parse errors, malformed JSON, valid "
         "JSON that is not a request, eval_up_to / load (also of multi-byte sources at arbitrary byte offsets), "
         "re-definitions of functions, methods, enums and structs (fewer / more / reordered variants and fields, "
         "unknown type hints) while values of the old definition are held in globals, closures and paused frames, "
@@ -39,6 +40,9 @@ DEFS = ("fun helper(x: Int): Int { x + 1 }\n"
         "fun held_kind(k: Kind): Int { let kept = k\n  1 / 0 }\n"
         "fun held_pt(p: Pt): Int { let kept = p\n  1 / 0 }\n"
         "fun bad_ret(): NoSuch { 1 }\n"
+        "fun wrong_ret(x): Int { x }\n"
+        "fun empty_ret(): Int {}\n"
+        "method wrong_ret_m(this: String): Int { this }\n"
         "fun bad_param(x: NoSuch): Int { 1 }\n"
         "fun boom(x: Int): Int { let local = x * 2\n  local / 0 }\n"
         "fun outer(x: Int): Int { let o = x\n  boom(o) + 1 }\n"
@@ -58,6 +62,15 @@ FAILING = [
     "throw(\"stop\")",
     "println(1)",
     "bad_ret()",
+    "wrong_ret(\"a\")",
+    "Dict[\"a\" => 1, 2 => 3]",
+    "Dict[1 => 2]",
+    "Path{ p: \"x\" }.exists()",
+    "wrong_ret(\"a\") + 1",
+    "empty_ret()",
+    "\"s\".wrong_ret_m()",
+    "(fun(): String { 97 })()",
+    "[1].map(fun(v: Int): String { v })",
     "let hinted: NoSuch = 1",
     "let hinted2: List<NoSuch> = [1]",
     "3.twice()",
@@ -105,7 +118,7 @@ def gen(r):
         k = r.weighted([(6, "eval"), (4, "fail"), (3, "resume"), (3, "abort"), (3, "skip"), (3, "replace"),
                         (5, "inspect"), (2, "parse_error"), (1, "malformed"), (1, "not_request"), (2, "define"),
                         (1, "forget"), (1, "eval_up_to"), (1, "load"), (1, "forget_local"), (3, "redef"),
-                        (3, "hold"), (4, "show_held"), (1, "load_mb"), (1, "eval_up_to_mb")])
+                        (3, "hold"), (4, "show_held"), (1, "load_mb"), (1, "eval_up_to_mb"), (3, "fail_resume_n")])
         if k == "eval":
             reqs.append(["eval", 1000 + i])
         elif k == "fail":
@@ -113,6 +126,13 @@ def gen(r):
             paused += 1
             aborted_last = False
             continue
+        elif k == "fail_resume_n":
+            # a failing evaluation followed at once by 2..4 resumes: every error path has to leave the frame in a
+            # state from which the same step can be retried again and again
+            reqs.append(["run", r.choice(FAILING)])
+            for _ in range(r.int(2, 4)):
+                reqs.append(["run", ":resume"])
+            paused += 1
         elif k == "resume":
             if paused == 0:
                 odd = True
